@@ -183,6 +183,20 @@ def run(ck):
         ck.coverage["evaluator_arms_read"] = len(arms)
     except (ValueError, IndexError, OSError) as e:
         ck.report("model-source-changed:evaluator-arms", "Evaluator::eval cannot be read (%s)" % e, replay={"function": "executor/evaluator.rs:eval"}, found_input=False)
+    # the heads the model treats as aggregate / window calls (`Wf.aggHeadNames`) are the ones the plan language
+    # declares in its "aggregations" and "window functions" sections (src/planner/mod.rs define_language!)
+    try:
+        lang = open(os.path.join(vlib.REPO, "src/planner/mod.rs")).read()
+        sec = lang[lang.index("// aggregations"):lang.index("// subquery related")]
+        heads_src = set(re.findall(r'^\s*"([^"]+)"\s*=\s*[A-Z]', sec, re.M))
+        pw = open(os.path.join(vlib.VERIF, "lean/RlModel/Model/PlanWf.lean")).read()
+        heads_model = set(re.findall(r'"([^"]+)"', pw[pw.index("def aggHeadNames"):pw.index("def isAggHd")]))
+        if heads_src != heads_model:
+            ck.report("model-source-changed:aggregate-heads", "the plan language declares the aggregate / window heads %s, the model's aggHeadNames are %s" % (sorted(heads_src), sorted(heads_model)),
+                      replay={"source": sorted(heads_src), "model": sorted(heads_model)}, found_input=False)
+        ck.coverage["aggregate_heads"] = sorted(heads_src)
+    except (ValueError, OSError) as e:
+        ck.report("model-source-changed:aggregate-heads", "the aggregate section of the plan language cannot be read (%s)" % e, replay={"file": "src/planner/mod.rs"}, found_input=False)
     # `schema` of the plan checker is regenerated from rules/schema.rs analyze_schema
     rc, out = vlib.sh([sys.executable, os.path.join(vlib.VERIF, "translator/gen_schema.py"), vlib.REPO])
     ck.log(out.strip().split("\n")[-1][:160])
